@@ -54,7 +54,7 @@ OneUnnest(items) == Cardinality({k \in 1..Len(items) : IsUnnestItem(items[k])}) 
 Q_C01a == {[BaseQ EXCEPT !.items = its, !.where = w] : its \in {s \in SeqsBetween(ItemsPlain, 1, 2) : OneUnnest(s)}, w \in WhereSet}
 
 Q_C01exc == {[BaseQ EXCEPT !.hasexc = TRUE, !.exc = ex, !.where = w] :
-                ex \in {<<1>>, <<2>>, <<3>>, <<1, 2>>, <<2, 1>>, <<1, 3>>, <<1, 2, 3>>}, w \in {TRUEx, <<"nrodd">>}}
+                ex \in {<<1>>, <<2>>, <<3>>, <<1, 2>>, <<2, 1>>, <<1, 3>>, <<1, 2, 3>>, <<2, 2, 3>>, <<3, 1, 1>>, <<1, 1>>}, w \in {TRUEx, <<"nrodd">>}}
 
 \* ---------------------------------------------------------------- C04: joins
 ItemsJoin == {E(Fa(1)), E(Fb(1)), E(Fb(2)), E(<<"bNR">>), E(NRx), <<"star">>, <<"astar">>, <<"bstar">>,
@@ -195,6 +195,13 @@ Q_C13join == {[BaseQ EXCEPT !.items = <<E(Fa(1)), E(Fb(2))>>, !.join = j, !.jkey
 R_2x2p == [1..2 -> {S(97), S(98), S(112)}]     \* rectangular, with the poison value
 
 \* ---------------------------------------------------------------- extension: user init code
+\* C16 (same text over a different column layout): closed under exchanging the fields 1 and 2
+Q_C16named == {[BaseQ EXCEPT !.items = its, !.where = w] :
+                 its \in {<<E(Fa(1))>>, <<E(Fa(2))>>, <<E(Fa(1)), E(Fa(2))>>, <<E(Fa(2)), E(Fa(1))>>, <<E(<<"cat", Fa(1), L(120)>>)>>, <<E(<<"cat", Fa(2), L(120)>>)>>},
+                 w \in {TRUEx, <<"eq", Fa(1), L(97)>>, <<"eq", Fa(2), L(97)>>}}
+              \cup {[BaseQ EXCEPT !.kind = "update", !.assign = asg, !.where = w] :
+                 asg \in {<< <<1, <<"cat", Fa(2), L(120)>> >> >>, << <<2, <<"cat", Fa(1), L(120)>> >> >>},
+                 w \in {TRUEx, <<"eq", Fa(1), L(97)>>, <<"eq", Fa(2), L(97)>>}}
 Q_EXTinit == {[BaseQ EXCEPT !.items = <<E(<<"udf", Fa(1)>>), E(NRx)>>, !.init = "def"],
               [BaseQ EXCEPT !.items = <<E(Fa(1))>>, !.where = <<"eq", <<"udf", Fa(2)>>, <<"lit", <<97, 117>>>> >>, !.init = "def", !.order = << <<"udf", Fa(1)>> >>],
               [BaseQ EXCEPT !.kind = "update", !.assign = << <<1, <<"udf", Fa(2)>> >> >>, !.init = "def"],
